@@ -167,16 +167,14 @@ FunctionKey::execute(
 
                     DOMServices::getNodeData(*theNodeSet.item(i), executionContext, ref);
 
-                    if (0 != ref.length())
-                    {
-                        getNodeSet(
-                            executionContext,
-                            context,
-                            keyname,
-                            ref,
-                            locator,
-                            *theNodeRefList.get());
-                    }
+                    // An empty string-value is a key value like any other...
+                    getNodeSet(
+                        executionContext,
+                        context,
+                        keyname,
+                        ref,
+                        locator,
+                        *theNodeRefList.get());
 
                     ref.clear();
                 }
